@@ -277,7 +277,24 @@ class DeepTracer(Tracer):
             args = [kind] + wire.r_msg(a[0], with_iv=False) + ['none']
         n = sa.new_ike_sa
         pre = self.r_xsa(sa) + opt(None if n is None else self.r_xsa(n))
-        return {'pre': pre, 'args': args, 'o0': len(self.oracle), 'now': self.w.now}
+        # the step of the state machine a request generator stands for (RFC 7296 exchanges as this daemon numbers them)
+        expected = None
+        if kind == 'gen':
+            k = GEN_KIND[name]
+            if k == 'geninit':
+                expected = 2
+            elif k == 'gencreate':
+                rk = a[1] if len(a) > 1 else kw.get('rekeyed_child_sa')
+                expected = 11 if rk is None else 12
+            elif k == 'gendelchild':
+                expected = 14
+            elif k == 'gendpd':
+                expected = 17
+            elif k == 'gendelike':
+                expected = 15 if int(sa.state) == 10 else 16
+            elif k == 'genrekeyike':
+                expected = 13
+        return {'pre': pre, 'args': args, 'o0': len(self.oracle), 'now': self.w.now, 'expected_state': expected, 'state_before': int(sa.state)}
 
     def post_call(self, token, kind, name, sa, res, nl):
         tape = self.oracle[token['o0']:]
@@ -291,7 +308,8 @@ class DeepTracer(Tracer):
         nlt = self.r_nl(nl)
         exp = self.r_xsa(sa) + opt(None if n is None else self.r_xsa(n)) + r + [str(len(nlt))] + [x for op in nlt for x in op] + ['0', '0']
         self.hlines.append((' '.join(line), ' '.join(exp), {'name': name, 'ep': self.w.current.name, 'state_after': int(sa.state),
-                                                             'raised': None if res[0] == 'ok' else type(res[1]).__name__}))
+                                                             'raised': None if res[0] == 'ok' else type(res[1]).__name__,
+                                                             'expected_state': token['expected_state'], 'state_before': token['state_before']}))
 
     # ------------------------------------------------------------- one loop iteration
     def step_begin(self, ep, pre_objs):
